@@ -20,6 +20,8 @@ mcAdvC ==
   \cup {<<[t |-> "RST", sid |-> sid, code |-> 8]>> : sid \in {1, 2}}
   \cup {<<[t |-> "WU", sid |-> sid, inc |-> 5]>> : sid \in {1, 2}}
   \cup {<<AWU(1, 2147483647)>>, <<AD(1, 2, FALSE, 3)>>}        \* window overflow; padded DATA
+  \* header blocks with priority fields, with and without END_STREAM (the related events of C07)
+  \cup {<<AHP(1, h, es, <<5, 0, FALSE>>)>> : h \in {"resp200", "trl"}, es \in BOOLEAN}
   \cup {<<[t |-> "PP", sid |-> sid, pid |-> 2, h |-> "req_get_b", blk |-> "ok"]>> : sid \in {1, 3}}
 mcSetup == <<
   [a |-> "call", x |-> "c", c |-> [op |-> "init"]],
